@@ -2,7 +2,7 @@
 # usage: seedrun.sh <ID> <seed-dir> [tier] — confirm a seeded change in a scratch worktree, store it
 # under /verif/seeded/<name>/, run the property's check against it (applied to /repo, undone afterwards).
 set -u
-ID=$1; SD=$2; TIER=${3:-quick}; NAME=$(basename $SD | sed "s/^seed2-\(.*\)/\1-r2/; s/^seed3-\(.*\)/\1-r3/; s/^seed4-\(.*\)/\1-r4/; s/^seed5-\(.*\)/\1-r5/; s/^seed6-\(.*\)/\1-r6/; s/^seed7-\(.*\)/\1-r7/; s/^seed9-\(.*\)/\1-r9/; s/^seedA-\(.*\)/\1-r10/; s/^seed-//")
+ID=$1; SD=$2; TIER=${3:-quick}; NAME=$(basename $SD | sed "s/^seed2-\(.*\)/\1-r2/; s/^seed3-\(.*\)/\1-r3/; s/^seed4-\(.*\)/\1-r4/; s/^seed5-\(.*\)/\1-r5/; s/^seed6-\(.*\)/\1-r6/; s/^seed7-\(.*\)/\1-r7/; s/^seed9-\(.*\)/\1-r9/; s/^seedA-\(.*\)/\1-r10/; s/^seedB-\(.*\)/\1-r11/; s/^seed-//")
 export GOFLAGS=-mod=mod GOPROXY=off GOSUMDB=off GOTOOLCHAIN=local
 WT=/tmp/confirm-$NAME
 git -C /repo worktree remove --force $WT >/dev/null 2>&1
